@@ -25,8 +25,14 @@ def _stats():
             return {"stats_error": log[-400:]}
         drift = sum(1 for i in range(len(terms)) if i in rows and not rows[i][0])
         vac = sum(1 for i in range(len(terms)) if i in rows and not rows[i][1])
+        skipped = sum(1 for i in range(len(terms)) if i in rows and 7 in rows[i][2])
+        per_stream = {}
+        for st in streams:
+            per_stream[st] = per_stream.get(st, 0) + 1
         out = {"exact_status_drift_cases": drift, "property_vacuous_cases": vac, "stats_over_cases": len(terms),
-               "property_vacuous_share": round(vac / float(len(terms)), 3)}
+               "property_vacuous_share": round(vac / float(len(terms)), 3),
+               # cases with a 1xx/2xx status override: neither the projection nor the property is compared, only the hit bound
+               "corr_skipped_cases": skipped, "cases_per_stream": per_stream}
     except Exception as exc:  # statistics must never break the check
         out = {"stats_error": repr(exc)[:300]}
     return out
@@ -41,6 +47,7 @@ P = {
                  "C01_error_pipeline_never_forgets", "C01_error_handler_cannot_rescue", "C01_real_mechanisms_record",
                  "C01_reached_panic_is_non_success", "C01_success_is_positive", "C01_loader_redirect_never_success",
                  "C01_silent_handler_would_rescue", "C01_no_authenticator_is_positive", "C01_success_redirect_is_positive",
+                 "C01_success_redirect_value_is_positive",
                  "C01_continue_step_panic_is_reached", "C01_continue_step_condition_error_is_swallowed", "C01_nonvacuous"],
     "streams": [{
         "name": "pipeline", "pkg": "./internal/rules", "test": "TestVerifC01",
@@ -58,7 +65,7 @@ P = {
         "n_quick": 1200, "n_thorough": 30000, "findings": {}, "shard": 200,
     }, {
         # the same driver, race detector on: after the sequential pass every group's requests are repeated concurrently
-        # (4 rounds x requests x 3 entry points through the SAME rule instance, executor and stacks) and must get the very
+        # (12 rounds x requests x 3 entry points through the SAME rule instance, executor and stacks) and must get the very
         # same answers and the same total of upstream hits
         "name": "concurrent", "pkg": "./internal/rules", "test": "TestVerifC01",
         "overlay": {
@@ -116,7 +123,8 @@ P = {
         "configuration loader, mechanism catalogue, rule factory, file_system provider, rule-set processor and repository; requests "
         "with no / good / bad credentials, with and without %2F.  non-trivial = a rule applied and at least one of its steps failed, "
         "was skipped by a false condition, had a condition that could not be evaluated, or panicked; distinct by hash of the input"),
-    "anchors": ["internal/rules/rule_impl.go", "internal/rules/rule_executor_impl.go",
+    "anchors": ["internal/handler/middleware/http/errorhandler/formatter.go", "internal/rules/rule_factory_impl.go",
+                "internal/rules/rule_impl.go", "internal/rules/rule_executor_impl.go",
                 "internal/rules/composite_subject_creator.go", "internal/rules/composite_subject_handler.go",
                 "internal/rules/composite_error_handler.go", "internal/rules/conditional_subject_handler.go",
                 "internal/rules/conditional_error_handler.go", "internal/rules/cel_execution_condition.go",
@@ -143,9 +151,12 @@ P = {
         "rule matching is not modelled (C02/C03): the lookup situation is set up through the real repository with trivial routes",
         "the upstream is a local test server (answers with a status or drops the connection after taking the request); slow "
         "upstreams, 100-continue, upgrades are not generated",
-        "the error translators are the C12 model; correspondence for C01 is on the projection (success status or not / accepted "
-        "status / upstream reached or not); exact agreement of status, gRPC code and hit count is reported as a statistic "
-        "(exact_status_drift_cases) and never fatal",
+        "the error translators and the redirect handler constructor are the C12 model (http_respond / grpc_respond, "
+        "create_redirect, which C12's creation probe ties to the real constructor); correspondence for C01 is on the projection "
+        "(success status or not / accepted status / upstream reached or not); exact agreement of status, gRPC code and hit count is "
+        "reported as a statistic (exact_status_drift_cases) and never fatal; on cases with a 1xx/2xx status override (rare, part of "
+        "property_vacuous_share, counted as corr_skipped_cases) the projection is not compared either: only the upstream hit bound "
+        "is checked, the rest is left to the non-fatal exact statistic",
         "HTTP answers are read from httptest.ResponseRecorder or (25% of the groups) from a real loopback connection; TLS, HTTP/2, "
         "deadlines are not exercised",
         "not distinguished (unreachable in heimdall): errors.Is vs identity for the package-private errErrorHandlerNotApplicable, a "
